@@ -98,7 +98,7 @@ verif_harness! {
     }
 }
 
-//@ harness name=belt_rt_ed prop=C01,C20 tier=quick bits=384 stub=1 est=130 need=4 desc="W: BeltBlock dec(enc(b)) == b incl. key loading, all keys, all blocks, G5/G13/G21 arbitrary functions"
+//@ harness name=belt_rt_ed prop=C01,C20 tier=quick bits=384 stub=1 est=165 need=4 desc="W: BeltBlock dec(enc(b)) == b incl. key loading, all keys, all blocks, G5/G13/G21 arbitrary functions"
 verif_harness! {
     name: belt_rt_ed,
     bytes: 48,
@@ -115,7 +115,7 @@ verif_harness! {
     }
 }
 
-//@ harness name=belt_rt_de prop=C01,C20 tier=quick bits=384 stub=1 est=130 need=4 desc="W: BeltBlock enc(dec(b)) == b incl. key loading, all keys, all blocks, G5/G13/G21 arbitrary functions"
+//@ harness name=belt_rt_de prop=C01,C20 tier=quick bits=384 stub=1 est=150 need=4 desc="W: BeltBlock enc(dec(b)) == b incl. key loading, all keys, all blocks, G5/G13/G21 arbitrary functions"
 verif_harness! {
     name: belt_rt_de,
     bytes: 48,
